@@ -4,7 +4,7 @@ proof: Props/C01.v (simulation M vs S, terminals, literals); correspondence:
 implementation == extracted M on the whole stream (tree, error, full tracer
 callback sequence, hook log); oracle: implementation vs extracted S —
 accept/reject, and consumed bytes where a @position root exposes them."""
-from .. import stream
+from .. import stream, termstream
 from . import common
 
 FACTS = common.CODEGEN_FILES
@@ -19,6 +19,7 @@ def root_end(tree):
 
 
 def check(out, ctx):
+    tinfo = termstream.run(ctx, out, "C01")
     st = stream.get(ctx)
     cases = st["cases"]
     bad = common.correspondence(out, st, cases)
@@ -48,4 +49,4 @@ def check(out, ctx):
                            "generated grammars (families core/memo/leftrec/ws/hooks/include, plus memo-stripped and include-inlined twins) x inputs derived from the grammar (sentences, mutations, random); non-trivial = input non-empty and implementation result is OK or ERR; distinct by (grammar, rule, input)",
                            lambda c: len(c.inp) > 0 and c.impl["k"] in ("OK", "ERR"),
                            {"oracle_checked_against_spec": checked, "consumed_bytes_checked": consumed_checked,
-                            "model_vs_implementation_disagreements": bad})
+                            "model_vs_implementation_disagreements": bad, **tinfo})
